@@ -347,7 +347,16 @@ func init() {
 				if fnName(fn) == "am/nflog.decodeState" || fnName(fn) == "(am/nflog.state).clone" {
 					okKey = okKey || true
 					if fnName(fn) == "am/nflog.decodeState" {
-						okKey = strings.HasPrefix(ks, "am/nflog.stateKey(")
+						// (the key as it is on the paths that reach the write: a key joined with a validity flag is
+						// the computed key wherever the flag lets the write happen)
+						okKey = true
+						r := (&Walk{Fn: fn}).FromEntry()
+						for _, v := range e.ValStrs(fn, e.ValsAt(r, in, k)) {
+							if !strings.HasPrefix(v, "am/nflog.stateKey(") {
+								okKey = false
+								ks = v
+							}
+						}
 					}
 				}
 				o.Check(okKey, "key|"+fnName(fn), "the log state is indexed with "+ks+" instead of stateKey(group key, receiver)", in)
